@@ -12,11 +12,18 @@
 (* under a file context), Pin / Unpin (POST/DELETE /pins, pinning.Service),  *)
 (* Delete (DELETE /aurora/{ref}), Collect (one garbage-collection cycle run  *)
 (* until it reports done) and Restart.                                       *)
+(* A "file" is a manifest root: a single-file manifest, or a directory of    *)
+(* two member files under one root (POST /aurora with a tar); a directory is *)
+(* downloaded / read one member at a time (GET /aurora/{ref}/{path}), its    *)
+(* availability bits are numbered over the data chunks of the whole root.    *)
 EXTENDS Integers, Sequences, FiniteSets, TLC
 
 CONSTANTS File,        \* files (manifest references)
           FDataSeq,    \* File -> sequence of data chunks (with repetitions)
-          FOther,      \* File -> set of non-data chunks (intermediate + manifest nodes)
+          FOther,      \* File -> set of chunks of the pyramid (intermediate + manifest nodes; also the only chunk of a
+                       \*         member file that fits in one chunk: it is that file's root and its data chunk)
+          FSplit,      \* File -> number of leading entries of FDataSeq[f] that belong to the first member file
+                       \*         (= Len(FDataSeq[f]) for a single-file manifest, less for a directory)
           Caps         \* capacities used by Collect
 
 VARIABLES data,     \* chunks stored locally
@@ -48,10 +55,19 @@ Target(cap)  == (cap * 9) \div 10
 Without(s, f) == SelectSeq(s, LAMBDA x : x # f)
 Touch(s, f)   == Append(Without(s, f), f)
 
-\* data chunks a (possibly partial) download fetches
+IsDir(f) == FSplit[f] < Len(FDataSeq[f])
+MemData(f, m) == {FDataSeq[f][i] : i \in {j \in DOMAIN FDataSeq[f] : IF m = 1 THEN j <= FSplit[f] ELSE j > FSplit[f]}}
+
+\* data chunks a (possibly partial) download fetches: the whole file / a byte range of a single-file manifest,
+\* one member file of a directory
 Sel(f, sel) == CASE sel = "all"    -> FData(f)
                  [] sel = "first"  -> {FDataSeq[f][1]}
                  [] sel = "second" -> IF Len(FDataSeq[f]) >= 2 THEN {FDataSeq[f][2]} ELSE {FDataSeq[f][1]}
+                 [] sel = "m1"     -> MemData(f, 1)
+                 [] sel = "m2"     -> MemData(f, 2)
+SelKinds(f)  == IF IsDir(f) THEN {"m1", "m2"} ELSE {"all", "first", "second"}
+ReadKinds(f) == IF IsDir(f) THEN {"m1", "m2"} ELSE {"all"}
+AllSels == {"all", "first", "second", "m1", "m2"}
 
 Needed(f, S) == \E g \in S : g # f /\ TRUE
 UsedByOther(c, f, K) == \E g \in K \ {f} : c \in FChunks(g)
@@ -92,6 +108,7 @@ Download(f, sel, miss) ==
       fetched == FOther[f] \cup got
       new == fetched \ data
       n == Cardinality(new) IN
+  /\ sel \in SelKinds(f)
   /\ ~(f \in known /\ FChunks(f) \subseteq data)          \* else it is a local read
   /\ data' = data \cup fetched
   /\ IF f \in rootpin
@@ -104,12 +121,13 @@ Download(f, sel, miss) ==
   /\ last' = IF miss = "none" THEN [op |-> "download", f |-> f, sel |-> sel]
                               ELSE [op |-> "download", f |-> f, sel |-> sel, miss |-> miss]
 
-Read(f) ==
-  /\ f \in known /\ FChunks(f) \subseteq data
+Read(f, sel) ==
+  /\ sel \in ReadKinds(f)
+  /\ f \in known /\ FOther[f] \cup Sel(f, sel) \subseteq data
   /\ lru' = IF acct[f] > 0 THEN Touch(lru, f) ELSE lru
-  /\ bits' = [bits EXCEPT ![f] = FData(f)]
+  /\ bits' = [bits EXCEPT ![f] = @ \cup Sel(f, sel)]
   /\ UNCHANGED <<data, up, pin, acct, held, gcSize, known, rootpin>>
-  /\ last' = [op |-> "read", f |-> f, sel |-> "all"]
+  /\ last' = [op |-> "read", f |-> f, sel |-> sel]
 
 TouchKinds == {"root", "inter", "data0", "datalast"}
 TouchChunk(f, kind) ==
@@ -195,22 +213,40 @@ CollectRace(cap, f, rop) ==
       s0 == [data |-> data, acct |-> acct, gcSize |-> gcSize, known |-> known, bits |-> bits, lru |-> lru0,
              pin |-> pin, up |-> up]
       s1 == EvictUntil(s0, Target(cap)) IN
-  /\ f \in known /\ FChunks(f) \subseteq data
+  /\ f \in known /\ FChunks(f) \subseteq data /\ (rop = "read" => ~IsDir(f))
   /\ data' = s1.data /\ acct' = s1.acct /\ gcSize' = s1.gcSize /\ known' = s1.known
   /\ bits' = s1.bits /\ lru' = s1.lru
   /\ UNCHANGED <<up, pin, held, rootpin>>
   /\ last' = [op |-> "gc", cap |-> cap, race |-> [op |-> rop, f |-> f]]
 
+\* a collection that really collects and whose first run is interleaved, between candidate selection and eviction,
+\* with the complete download of ANOTHER file g the node does not know yet: the puts of g commit inside the run (the
+\* counter must keep them: it is changed by the run only by what the run releases), chunks g shares with an evicted
+\* file stay, later runs see g as the most recently used file
+CollectRaceDl(cap, g) ==
+  LET n  == Cardinality(FChunks(g) \ data)
+      s0 == [data |-> data \cup FChunks(g), acct |-> [acct EXCEPT ![g] = @ + n], gcSize |-> gcSize + n,
+             known |-> known \cup {g}, bits |-> [bits EXCEPT ![g] = FData(g)], lru |-> Touch(lru, g),
+             pin |-> pin, up |-> up]
+      s1 == EvictUntil(s0, Target(cap)) IN
+  /\ g \notin known /\ ~IsDir(g) /\ gcSize > Target(cap)
+  /\ data' = s1.data /\ acct' = s1.acct /\ gcSize' = s1.gcSize /\ known' = s1.known
+  /\ bits' = s1.bits /\ lru' = s1.lru
+  /\ UNCHANGED <<up, pin, held, rootpin>>
+  /\ last' = [op |-> "gc", cap |-> cap, race |-> [op |-> "download", f |-> g]]
+
 Restart == /\ UNCHANGED <<data, up, pin, acct, held, gcSize, known, rootpin, bits, lru>>
            /\ last' = [op |-> "restart"]
 
 Next == \/ \E f \in File, p \in BOOLEAN : Upload(f, p)
-        \/ \E f \in File, sel \in {"all", "first", "second"}, miss \in MissKinds : Download(f, sel, miss)
-        \/ \E f \in File : Read(f) \/ Delete(f)
+        \/ \E f \in File, sel \in AllSels, miss \in MissKinds : Download(f, sel, miss)
+        \/ \E f \in File, sel \in AllSels : Read(f, sel)
+        \/ \E f \in File : Delete(f)
         \/ \E f \in File, k \in TouchKinds : TouchChunk(f, k)
         \/ \E f \in File, via \in {"api", "svc"} : Pin(f, via) \/ Unpin(f, via)
         \/ \E cap \in Caps : Collect(cap)
         \/ \E cap \in Caps, f \in File, rop \in RaceOps : CollectRace(cap, f, rop)
+        \/ \E cap \in Caps, g \in File : CollectRaceDl(cap, g)
         \/ Restart
 
 Spec == Init /\ [][Next]_vars
